@@ -9,8 +9,8 @@ CONSTANTS NModelsSet,    \* numbers of models
           FirstExprs, SecondExprs,   \* indices into ExprChoices for the first / second row
           ModelArgs,     \* values of the model parameter (0 stands for None)
           FlagSets       \* indices into FlagChoices
-VARIABLES blk, call, res, phase
-vars == <<blk, call, res, phase>>
+VARIABLES par, call, res, phase      \* par = the parameters of the file: [nm, tab, gens, missing]
+vars == <<par, call, res, phase>>
 
 \* ------------------------------------------------------------------ the family of files
 Atoms4 == <<[asym |-> "A", auth |-> "X"], [asym |-> "B", auth |-> "Y"],
@@ -56,18 +56,24 @@ AidArgs == {<<>>, <<"1">>, <<"2">>, <<"9">>}
 NegOne == -1
 ModelVals == {IF m = 99 THEN NegOne ELSE m : m \in ModelArgs}      \* cfg files hold no negative numbers
 
+Par(nm, tab, gens, missing) == [nm |-> nm, tab |-> tab, gens |-> gens, missing |-> missing]
+blk == Block(par.nm, par.tab, par.gens, par.missing)
+\* the parts of the file that the parameters select, for the driver that builds the real object
+ASSUME PrintT(<<"CONSTFILE", [atoms |-> Atoms4, bonds |-> Bonds4, asms |-> Asms,
+                              coord |-> [nm \in 1..3 |-> CoordOf(nm)], tables |-> [k \in 1..2 |-> Table(k)]]>>)
+
 Init ==
   /\ phase = 0 /\ res = <<>>
   /\ \E aid \in AidArgs, m \in ModelVals, f \in FlagSets : call = CallRec(aid, m, f)
   /\ \/ \E nm \in NModelsSet, tab \in Tables, e1 \in FirstExprs, a1 \in DOMAIN AsymChoices :
-          \/ blk = Block(nm, tab, <<Row("1", e1, a1)>>, {})
+          \/ par = Par(nm, tab, <<Row("1", e1, a1)>>, {})
           \/ \E id2 \in {"1", "2"}, e2 \in SecondExprs, a2 \in {2, 3} :
-                blk = Block(nm, tab, <<Row("1", e1, a1), Row(id2, e2, a2)>>, {})
+                par = Par(nm, tab, <<Row("1", e1, a1), Row(id2, e2, a2)>>, {})
      \* absent categories
-     \/ \E miss \in (SUBSET Cats) \ {{}} : blk = Block(2, 1, <<Row("1", 2, 2), Row("2", 1, 1)>>, miss)
+     \/ \E miss \in (SUBSET Cats) \ {{}} : par = Par(2, 1, <<Row("1", 2, 2), Row("2", 1, 1)>>, miss)
 \* "get" is res.get, "list" is res.list: both calls on every file
 Results(b, c) == [get |-> GetAssembly(b, c), strict |-> StrictCall(b, c), list |-> ListAssemblies(b)]
-Next == phase = 0 /\ phase' = 1 /\ res' = Results(blk, call) /\ UNCHANGED <<blk, call>>
+Next == phase = 0 /\ phase' = 1 /\ res' = Results(blk, call) /\ UNCHANGED <<par, call>>
 Spec == Init /\ [][Next]_vars
 
 \* ------------------------------------------------------------------ laws
